@@ -90,8 +90,17 @@ archive_write_disk_set_standard_lookup(struct archive *a)
 		free(gcache);
 		return (ARCHIVE_FATAL);
 	}
-	archive_write_disk_set_group_lookup(a, gcache, lookup_gid, cleanup);
-	archive_write_disk_set_user_lookup(a, ucache, lookup_uid, cleanup);
+	if (archive_write_disk_set_group_lookup(a, gcache, lookup_gid,
+	    cleanup) != ARCHIVE_OK) {
+		free(ucache);
+		free(gcache);
+		return (ARCHIVE_FATAL);
+	}
+	if (archive_write_disk_set_user_lookup(a, ucache, lookup_uid,
+	    cleanup) != ARCHIVE_OK) {
+		free(ucache);
+		return (ARCHIVE_FATAL);
+	}
 	return (ARCHIVE_OK);
 }
 
